@@ -81,6 +81,7 @@ namespace wc
         std::vector<StreamOp> ops; // stream
         size_t streamSize   = 512;
         size_t maxResponse  = 0;   // 0 = default
+        int moveStream      = 0;   // 0: used in place; 1: move-constructed before the first op; 2: after the first op
         bool useMimeArg     = false;
     };
 
@@ -124,10 +125,20 @@ namespace wc
                 }
                 else
                 {
-                    auto s = w.stream(static_cast<Http::Code>(spec->code), spec->streamSize);
+                    auto s0 = w.stream(static_cast<Http::Code>(spec->code), spec->streamSize);
+                    // a ResponseStream is movable: handlers keep it beyond onRequest (shared_ptr, lambda capture)
+                    std::unique_ptr<Http::ResponseStream> moved;
+                    Http::ResponseStream* sp = &s0;
+                    if (spec->moveStream == 1)
+                    {
+                        moved.reset(new Http::ResponseStream(std::move(*sp)));
+                        sp = moved.get();
+                    }
                     int k  = 0;
+                    int nops = 0;
                     for (const auto& op : spec->ops)
                     {
+                        Http::ResponseStream& s = *sp;
                         switch (op.kind)
                         {
                         case OP_WRITE: {
@@ -152,7 +163,14 @@ namespace wc
                             s << Http::flush;
                             break;
                         }
+                        if (++nops == 1 && spec->moveStream == 2)
+                        {
+                            auto* n2 = new Http::ResponseStream(std::move(*sp));
+                            moved.reset(n2);
+                            sp = n2;
+                        }
                     }
+                    Http::ResponseStream& s = *sp;
                     s << Http::ends;
                 }
             }
